@@ -254,6 +254,20 @@ PROPS["C20"] = {
     "assumptions": ["engine-only: the stubs cannot be installed natively"],
 }
 
+PROPS["C19"] = {
+    "harnesses": [
+        {"pkg": ".", "dir": "s3db", "entry": "VerifH_C19_registry", "no_native": True,
+         "quick": {"params": "preempt=2,schedlocks=1,schedglobals=1", "workers": 16, "timeout": 1800},
+         "thorough": {"params": "preempt=4,schedlocks=1,schedglobals=1", "workers": 16, "timeout": 7200}},
+        {"pkg": "sqlite", "dir": "sqlite", "entry": "VerifH_C19_conn_isolation", "extra": [("s3db_export", ".")], "no_native": True,
+         "quick": {"params": "steps=3", "workers": 16, "timeout": 1800}},
+    ],
+    "bounds": {"quick": "two threads each running New (in-memory bucket, so OpenKV's lazy creation runs) -> GetTable -> Disconnect with equal or distinct table names; scheduling points at every Lock, Unlock and access to the guarded package variables (tables, inMemoryS3, inMemoryBucket); at most 2 preemptive switches. Two connections: 3 operations on one never change the other's write_time/deadline",
+               "thorough": "at most 4 preemptive switches"},
+    "outside": "general data-race freedom under the Go memory model (the race detector's job, a different technique), SQLite's and cgo's threads, concurrency inside one table",
+    "assumptions": ["engine-only (schedules are not replayed natively)"],
+}
+
 # Properties not (yet) claimed, each with the reason.  Kept current by hand.
 NOT_APPLICABLE = {
     "C%02d" % i: "check not built yet in this session (breadth-first build order, DESIGN §9); no claim is made" for i in range(1, 21)
